@@ -247,6 +247,11 @@ func specRel(opts []layers.TCPOption, a int, o int, isn uint32) uint32 {
 
 //@ func (*sackDriver).ReceiveProbe
 //@ safety C09 C14 C08
+// the reply handed to the engine is exactly what the matcher decided about the packet just read: every packet that parses
+// is given to the matcher (nothing is skipped), and nothing else produces a result
+//@ ensures[C01+C02+C04+C05.recv.pass]  ncalls("(*sackDriver).handleProbeLayers") == old(ncalls("(*sackDriver).handleProbeLayers")) + 1 ==> ret0 == lastres("(*sackDriver).handleProbeLayers", 0) && ret1 == lastres("(*sackDriver).handleProbeLayers", 1)
+//@ ensures[C01+C04.recv.only]          ret0 != nil ==> ncalls("(*sackDriver).handleProbeLayers") == old(ncalls("(*sackDriver).handleProbeLayers")) + 1
+//@ ensures[C02.recv.all]               ncalls(ReadAndParse) == old(ncalls(ReadAndParse)) + 1 && lastres(ReadAndParse, 0) == nil ==> ncalls("(*sackDriver).handleProbeLayers") == old(ncalls("(*sackDriver).handleProbeLayers")) + 1
 //@ requires[pre.nonnil]     s != nil && s.source != nil && s.parser != nil && s.parser.parserv4 != nil && s.parser.parserv6 != nil
 //@ requires[C10.recv.open]  selb(isOpen, ref(s.source))
 //@ requires[pre.len]        s.state != nil ==> len(s.sendTimes) == int(s.params.ParallelParams.MaxTTL)+1
